@@ -91,6 +91,8 @@ func VH_LineTotal() {
 		line = "type=UNKNOWN[" + line + "] msg=audit(1.000:1): a=b"
 	case 4: // everything between "type=" and the header
 		line = "type=" + line + "audit(1.000:1): a=b"
+	case 5: // whatever precedes " msg=" (node=..., nothing, junk), with a type= key only in the body
+		line = line + " msg=audit(1.000:1): type=x a=b"
 	}
 	m, err := ParseLogLine(line)
 	vAssert((err != nil) == (m == nil), "C05/error-and-message-disagree")
